@@ -135,12 +135,14 @@ struct Sess {
     void repair(const std::string &k) { cur.erase(k); sync(k); }
 
     // runs the validator on every entity and on the file; returns "" or the first difference to the expected verdicts
-    std::string validate(json exp, json &obs, json &details) {
+    std::string validate(json exp, const json &expW, json &obs, json &details, json &known) {
         nix::Block b = f.getBlock("b");
         obs = json::object(); details = json::object();
+        json obsW = json::object();
         auto rec1 = [&](const std::string &key, std::function<nix::valid::Result()> fn) {
-            try { nix::valid::Result r = fn(); obs[key] = r.hasErrors();
-                  if (r.hasErrors()) { json m = json::array(); for (auto &e : r.getErrors()) m.push_back(e.msg); details[key] = m; } }
+            try { nix::valid::Result r = fn(); obs[key] = r.hasErrors(); obsW[key] = r.hasWarnings();
+                  if (r.hasErrors()) { json m = json::array(); for (auto &e : r.getErrors()) m.push_back(e.msg); details[key] = m; }
+                  if (r.hasWarnings()) { json m = json::array(); for (auto &e : r.getWarnings()) m.push_back(e.msg); details["warn:" + key] = m; } }
             catch (const std::exception &e) { obs[key] = std::string("threw: ") + e.what(); }
         };
         nix::DataArray a1 = b.getDataArray("a1"), a2 = b.getDataArray("a2"), a3 = b.getDataArray("a3"), a4 = b.getDataArray("a4"), a5 = b.getDataArray("a5");
@@ -166,8 +168,27 @@ struct Sess {
         // the validation of the whole file reports an error iff some entity has one
         bool any = false; for (auto it = exp.begin(); it != exp.end(); ++it) any = any || it.value().get<bool>();
         exp["FILE"] = any;
-        try { obs["FILE"] = f.validate().hasErrors(); } catch (const std::exception &e) { obs["FILE"] = std::string("threw: ") + e.what(); }
-        return firstDiff(exp, obs);
+        bool fileWarn = false;
+        try { nix::valid::Result r = f.validate(); obs["FILE"] = r.hasErrors(); fileWarn = r.hasWarnings(); } catch (const std::exception &e) { obs["FILE"] = std::string("threw: ") + e.what(); }
+        std::string d = firstDiff(exp, obs);
+        if (!d.empty() || expW.is_null()) return d;
+        // soft-rule breaches: the entity must carry at least one warning (warnings of conforming entities are not judged),
+        // and so must the validation of the whole file
+        bool anyW = false;
+        for (auto it = expW.begin(); it != expW.end(); ++it) {
+            if (!it.value().get<bool>()) continue;
+            bool got = obsW.value(it.key(), false);
+            if (!got && it.key() == "A2" && on("unit_missing") && !on("origin_nopoly")) {
+                // known deviation: an array without any unit is not reported at all (C19-missing-unit-silent); with the
+                // other soft breach of A2 absent this is exactly the predicted result
+                known.push_back("C19-missing-unit-silent");
+                continue;
+            }
+            anyW = true;
+            if (!got) { obs = obsW; return "warning:/" + it.key(); }
+        }
+        if (anyW && !fileWarn) { obs = obsW; obs["FILE"] = false; return "warning:/FILE"; }
+        return "";
     }
 };
 
@@ -179,6 +200,7 @@ json handle(Ctx &c, const json &rec) {
     { std::set<std::string> todo = s.cur; for (auto &k : todo) s.sync(k); }
     s.close(); s.open();
     int n = 0;
+    json known = json::array();
     json steps = rec["pre"]; steps.push_back(rec["step"]);
     for (size_t i = 0; i < steps.size(); i++) {
         const json &st = steps[i];
@@ -188,12 +210,13 @@ json handle(Ctx &c, const json &rec) {
         else if (a == "Reopen") { s.close(); s.open(); }
         else if (a == "Validate") {
             json obs, details;
-            std::string d = s.validate(st["errors"], obs, details);
+            std::string d = s.validate(st["errors"], st.value("warns", json()), obs, details, known);
             n += 19;
             if (!d.empty()) {
-                json exp = st["errors"];
+                json exp = d.rfind("warning:", 0) == 0 ? st["warns"] : st["errors"];
                 json r = mismatch("valid:step" + std::to_string(i + 1) + ":" + d, exp, obs);
                 r["messages"] = details; r["n"] = n;
+                if (!known.empty()) r["known"] = known;
                 s.close();
                 return r;
             }
@@ -201,6 +224,7 @@ json handle(Ctx &c, const json &rec) {
     }
     s.close();
     json r = ok(); r["n"] = n;
+    if (!known.empty()) r["known"] = known;
     return r;
 }
 Reg reg("valid", handle);
